@@ -56,9 +56,41 @@ typedef struct { int n, m; long base, cnt; } Shape;
 static Shape shapes[32]; static int nshapes; static long total;
 
 static long ipow (long b, int e) { long r = 1; while (e-- > 0) r *= b; return r; }
+/* family CP: a deterministic catalogue of 240 covering (min c x, A x >= b) and packing (max c x, A x <= b) LPs with 3..5 rows and
+ * 4..8 non-negative columns, small integer data from a fixed linear congruential sequence: large enough for the pricing rules to
+ * differ in their pivots, small enough for tens of thousands of solves */
+static int is_cp;
+#define CP_COUNT 240
+static unsigned cp_next (unsigned *st) { *st = *st * 1103515245u + 12345u; return (*st >> 16) & 0x7fff; }
+static RefLP *cp_decode (long idx)
+{
+	int pack = (int) (idx % 2), m = 3 + (int) ((idx / 2) % 3), n = 4 + (int) ((idx / 6) % 5);
+	unsigned st = 2463534242u + (unsigned) idx * 2654435761u;
+	RefLP *L = ref_new (pack ? REF_MAX : REF_MIN);
+	mpq_t a, z; mpq_init (a); mpq_init (z);
+	char nm[16];
+	for (int c = 0; c < n; c++) { snprintf (nm, sizeof nm, "x%d", c); mpq_set_ui (a, 1 + cp_next (&st) % 9, 1); ref_add_col (L, a, z, 0, z, 1, nm); }
+	for (int r = 0; r < m; r++) {
+		snprintf (nm, sizeof nm, "c%d", r);
+		mpq_set_ui (a, (pack ? 6 : 3) + cp_next (&st) % 12, 1);
+		int row = ref_add_row (L, pack ? 'L' : 'G', a, NULL, nm);
+		for (int c = 0; c < n; c++) {
+			unsigned v = cp_next (&st) % 6;       /* 0 0 1 2 3 1: about a third of the entries are zero */
+			unsigned e = v < 2 ? 0 : v == 5 ? 1 : v - 1;
+			if (r == 0 && e == 0) e = 1;            /* row 0 is dense: every packing column is bounded, every covering row can be met */
+			mpq_set_ui (REF_A (L, row, c), e, 1);
+		}
+	}
+	/* every covering row needs a non-zero: put one on the diagonal */
+	for (int r = 0; r < m; r++) if (!mpq_sgn (REF_A (L, r, r % n))) mpq_set_ui (REF_A (L, r, r % n), 1, 1);
+	mpq_clear (a); mpq_clear (z);
+	return L;
+}
 void lpfam_select (const char *name)
 {
 	AL = NULL;
+	is_cp = !strcmp (name, "CP");
+	if (is_cp) { total = CP_COUNT; return; }
 	for (size_t i = 0; i < sizeof alphabets / sizeof alphabets[0]; i++) if (!strcmp (alphabets[i].name, name)) AL = &alphabets[i];
 	if (!AL) { fprintf (stderr, "unknown LP family %s\n", name); exit (2); }
 	nshapes = 0; total = 0;
@@ -83,6 +115,7 @@ static void parse_bound (const char *s, mpq_t lo, int *loinf, mpq_t up, int *upi
 }
 RefLP *lpfam_decode (long idx)
 {
+	if (is_cp) return cp_decode (idx);
 	int si = 0;
 	while (si + 1 < nshapes && idx >= shapes[si + 1].base) si++;
 	const Shape *sh = &shapes[si];
@@ -339,6 +372,7 @@ int xcfg_set_count (const char *s)
 	if (!strcmp (s, "k2")) return k2_count ();
 	if (!strcmp (s, "full")) return full_count ();
 	if (!strcmp (s, "k1x")) return 1 + 2 + 1 + 3 + 3 + 1;   /* entry, algo, pricing, scaling only */
+	if (!strcmp (s, "kpr")) return 1 + 2 * 4 * 4 * 2;       /* default + full product {direct primal, direct dual} x primal pricing x dual pricing x scaling */
 	if (!strcmp (s, "kdir")) return 1 + 2 * 2 * 4;          /* default + full product {direct primal, direct dual} x scaling x warm start */
 	fprintf (stderr, "unknown config set %s\n", s); exit (2);
 }
@@ -348,6 +382,7 @@ void xcfg_get (const char *s, int k, XCfg * x)
 	if (!strcmp (s, "default") || k == 0) { from_vec (v, x); return; }
 	if (!strcmp (s, "full")) { for (int i = 0; i < NFULL; i++) { v[i] = k % ccnt[i]; k /= ccnt[i]; } from_vec (v, x); return; }
 	k--;
+	if (!strcmp (s, "kpr")) { v[0] = 1 + k % 2; k /= 2; v[2] = k % 4; k /= 4; v[3] = k % 4; k /= 4; v[4] = k % 2; from_vec (v, x); return; }
 	if (!strcmp (s, "kdir")) { v[0] = 1 + k % 2; k /= 2; v[4] = k % 2; k /= 2; v[7] = k % 4; from_vec (v, x); return; }
 	int lim = !strcmp (s, "k1x") ? 5 : NCOORD;
 	for (int i = 0; i < lim; i++) { if (k < ccnt[i] - 1) { v[i] = k + 1; from_vec (v, x); return; } k -= ccnt[i] - 1; }
